@@ -48,7 +48,8 @@ func c07duty(kind string) core.Duty {
 // c07par builds the partial signature of share over "root" r (1 or 2) for validator v.
 func c07par(kind string, share int, r int, v core.PubKey) core.ParSignedData {
 	var sig eth2p0.BLSSignature
-	sig[0], sig[1], sig[2] = byte(share), byte(r), v[0]
+	// root numbers >= 16 carry the signature bytes of root r&15: different data under the same signature
+	sig[0], sig[1], sig[2] = byte(share), byte(r&15), v[0]
 	switch kind {
 	case c07Exit:
 		return core.NewPartialSignedVoluntaryExit(&eth2p0.SignedVoluntaryExit{
@@ -123,7 +124,7 @@ func (d c07deadliner) C() <-chan core.Duty { return d.ch }
 func c07id(p core.ParSignedData) string {
 	switch d := p.SignedData.(type) {
 	case core.SignedRandao:
-		return fmt.Sprintf("R/%d/%d/%x", p.ShareIdx, d.Epoch, d.SignedEpoch.Signature[:3])
+		return fmt.Sprintf("R/%d/%d/%x", p.ShareIdx, d.SignedEpoch.Epoch, d.SignedEpoch.Signature[:3]) // (d.Epoch is a method)
 	case core.SignedVoluntaryExit:
 		return fmt.Sprintf("E/%d/%d/%d/%x", p.ShareIdx, d.Message.Epoch, d.Message.ValidatorIndex, d.SignedVoluntaryExit.Signature[:3])
 	case core.Signature:
@@ -527,7 +528,7 @@ func c07shareOptions(full bool) [][]c07entry {
 
 func c07extraOptions() [][]c07entry {
 	return [][]c07entry{
-		{{"A", 0, 1}}, {{"A", 0, 2}},
+		{{"A", 0, 1}}, {{"A", 0, 2}}, {{"A", 0, 17}},
 		{{"A", 0, 1}, {"B", 0, 1}}, {{"A", 0, 2}, {"B", 0, 1}}, {{"A", 0, 1}, {"B", 0, 2}}, {{"A", 0, 2}, {"B", 0, 2}},
 	}
 }
